@@ -80,6 +80,8 @@ type Frame struct {
 	tuples   map[ssa.Value][]Term
 	locs     map[ssa.Value]*Loc
 	closures map[ssa.Value]*ssa.MakeClosure
+	curInstr ssa.Instruction // instruction being executed (call-site name resolution)
+	fnArgCons []*Contract    // contracts of the closures passed as arguments of the call being applied
 	in       map[*ssa.BasicBlock][]inEdge
 	rets     []retSite
 	panics   []Term
@@ -927,6 +929,7 @@ func (f *Frame) rootFrame() *Frame {
 func (f *Frame) topContract() *Contract { return f.rootFrame().contract }
 
 func (f *Frame) execInstr(instr ssa.Instruction, st *State, b *ssa.BasicBlock, only map[*ssa.BasicBlock]bool) {
+	f.curInstr = instr
 	vc := f.vc
 	S := vc.sorts
 	switch v := instr.(type) {
